@@ -105,8 +105,8 @@ def _run(ctx, chk):
 
     # ---------------- U6
     Q6 = QueueAnalysis(ctx)
-    Q6.rule_push(chk, "U6", "U6")
-    Q6.rule_remove_find(chk, "U6")
+    Q6.rule_push(chk, "U6", None)
+    Q6.rule_remove_find(chk, "U6", seq=True)
     Q6.rule_pop(chk, "U6", "U6", "U6", seq=True)
     Q6.who_may(chk, "U6")
     LR.rule_inplace_same_id(ctx, chk, L, "U6")
